@@ -1,0 +1,11 @@
+//go:build !verif
+// +build !verif
+
+package vm
+
+func verifStep(in *EVMInterpreter, contract *Contract, pc uint64, op OpCode, stack *Stack, mem *Memory) {
+}
+
+func verifFrameEnter(in *EVMInterpreter, contract *Contract) {}
+
+func verifFrameExit(in *EVMInterpreter, contract *Contract, mem *Memory, err *error) {}
